@@ -810,6 +810,25 @@ func c09Veneers(d *Defs, r *rng, pct int) (string, []string) {
 				}
 				expand(f.Name, ft, map[string]bool{def.Name: true, f.Ty.Ref: true}, 1)
 			case (f.Ty.Kind == SOneOfScalars || f.Ty.Kind == SOneOfStructs) && !f.Nullable && f.Required:
+				// the new options are named after the branches: skip when one of them would
+				// collide with an option the builder already has (redeclared method in Go, silently
+				// shadowed method in Python)
+				clash := false
+				for _, g := range def.Ty.Fields {
+					for _, br := range f.Ty.Branches {
+						if strings.EqualFold(g.Name, br.Name) {
+							clash = true
+						}
+					}
+					for _, alt := range []string{"string", "bool", "int64", "float64", "int32", "float32"} {
+						if f.Ty.Kind == SOneOfScalars && strings.EqualFold(g.Name, alt) {
+							clash = true
+						}
+					}
+				}
+				if clash {
+					continue
+				}
 				opts = append(opts, fmt.Sprintf("  - disjunction_as_options: { by_name: %s }", sel))
 				tags = append(tags, "disjunction_as_options")
 			case (f.Ty.Kind == SString || f.Ty.Kind == SInt) && !isBranch && !promoted[def.Name] && r.chance(50):
